@@ -464,10 +464,20 @@ def run(rep, tier):
                   'the emitted loop that adds the ancestors of the %s %s' % (what, 'visits every member' if brk is None and else_break is None else
                   ('BREAKS after the first member' if brk else 'LEAVES THE LOOP at the first non-member (`:: else -> break`): members further on never get their ancestors (an <initial> transition to a grandchild enters the grandchild without its parent)')))
     rep.minimum('R06.5', hits, 2, 'ancestor closures in the Promela entry-set phase')
+    # (c) deep completion is decided per member: the closure over `completion` is not switched on or off for the whole set by a test
+    # "no member is a direct child" (an initial attribute may name a child and a deeper descendant; same clause as R02.11 / R04.9)
+    whole = [(l_, s_) for l_, s_ in ls if re.search(r'!\s*STATES_HAS_AND\(\s*states\[\w+\]\.completion\s*,\s*states\[\w+\]\.children', l_)]
+    rep.check(not whole, 'R06.5', 'writeFSMEstablishEntrySet|deep completion per member', 'src/uscxml/transform/ChartToPromela.cpp:%s' % (whole[0][1] if whole else ls[0][1]),
+              'the ancestors of the completion members are added %s' % ('for each member that is not a direct child' if not whole else
+              'only when NO member is a direct child (`!STATES_HAS_AND(completion, children)` around the loop): initial="C a" with a child C and a deeper a enters a without its parent'))
 
     # ---- R06.6
     from . import C12
     C12.trie_rules(rep, fb, 'R06.6', 'R06.6')
+    C12.lookup_normalisation(rep, fb, 'R06.6', min_sites=1)
+    from ..report import Renamed
+    from . import C05
+    C05.audit_rules(Renamed(rep, {'R05.10': 'R06.14'}), facts.FactBase(C05.TUS))
     # ---- R06.11 parallel completion is judged inside the entry loop, on the configuration as far as it has been entered
     f11, t11, ls11 = per_writer['writeFSMEnterStates']
     hit11 = [(l_, s_) for l_, s_ in ls11 if re.search(r'STATES_AND_NOT\(\s*ctx\.tmp_states\s*,\s*states\[\w+\]\.ancestors', l_)]
